@@ -335,7 +335,8 @@ def check_weights(case):
 # sub: parallelepiped (TetraWeightsParal)
 
 paral_st = st.fixed_dictionaries(dict(
-    kind=st.sampled_from(["generic", "generic", "flat", "pairs", "layers", "near-flat"]),
+    kind=st.sampled_from(["random", "random", "generic", "flat", "pairs", "layers", "near-flat"]),
+    rs=st.integers(0, 2 ** 32),
     E0=fl(-5, 5), scale=st.sampled_from([1e-3, 1.0, 1.0, 30.0]),
     vals=st.lists(fl(-1, 1), min_size=9, max_size=9),
     tiny=st.sampled_from([1e-13, 1e-12, 1e-10, 1e-7]),
@@ -351,7 +352,10 @@ paral_st = st.fixed_dictionaries(dict(
 def paral_energies(case):
     v = np.array(case["vals"], dtype=float)
     k = case["kind"]
-    if k == "flat":
+    if k == "random":
+        from vlib.util import rng_of
+        v = rng_of(case["rs"]).uniform(-1, 1, size=9)
+    elif k == "flat":
         v = np.zeros(9)
     elif k == "pairs":
         v = np.round(v * 2) / 2
@@ -673,7 +677,7 @@ def check_cumdos(case):
 # machine) so that the compile time is not charged to the budget of the large pure-function subs
 SUBS = [
     Sub("cumdos", _cumdos_strategy(), check_cumdos, quick=40, thorough=640, budget_quick=80, budget_thorough=420),
-    Sub("weights", weights_case_st, check_weights, quick=5000, thorough=240000, budget_quick=120, budget_thorough=420),
-    Sub("paral", paral_st, check_paral, quick=480, thorough=16000, budget_quick=50, budget_thorough=420),
-    Sub("groups", groups_st, check_groups, quick=960, thorough=40000, budget_quick=50, budget_thorough=420),
+    Sub("weights", weights_case_st, check_weights, quick=5000, thorough=160000, budget_quick=120, budget_thorough=420),
+    Sub("paral", paral_st, check_paral, quick=480, thorough=10000, budget_quick=50, budget_thorough=420),
+    Sub("groups", groups_st, check_groups, quick=960, thorough=24000, budget_quick=50, budget_thorough=420),
 ]
